@@ -13,8 +13,8 @@ M = {
    "        message_id = self._pending_queue[0]\n",
    "        message_id = self._pending_queue[-1]\n"),
  "topic-skips-subscriber-that-left-during-latency": ("happysimulator/components/messaging/topic.py",
-   "            yield self._delivery_latency\n\n            subscription.messages_received += 1\n",
-   "            yield self._delivery_latency\n            if not subscription.active:\n                continue\n\n            subscription.messages_received += 1\n"),
+   "        for subscription in active_subscribers:\n            delivery_event = Event(\n",
+   "        for subscription in active_subscribers:\n            if not subscription.active:\n                continue  # left while the fan-out was in progress\n            delivery_event = Event(\n"),
  "rebalance-keeps-old-assignment": ("happysimulator/components/streaming/consumer_group.py",
    "        self._assignments = self._strategy.assign(partitions, consumer_names)\n",
    "        fresh = self._strategy.assign(partitions, consumer_names)\n        self._assignments = {**fresh, **{k: v for k, v in self._assignments.items() if k in fresh}}\n"),
